@@ -354,6 +354,7 @@ MISSING = object()
 class Interp:
     def __init__(self):
         self.namespaces = {}  # dotted external module -> Namespace
+        self.loop_contracts = {}  # (function qualname, loop ordinal) -> handler(interp, node, env, mod, cls, fn)
         self.builtins = {}
         self.trusted = {}  # (file, qualname) -> python model  (assumed contracts; reported)
         self.summaries = {}  # (file, qualname) -> callable(interp, fi, args, kwargs) (modular contracts)
@@ -917,6 +918,10 @@ class Interp:
                 if src not in ("torch.no_grad()", "torch.enable_grad()"):
                     raise Unsupported(f"with {src}")
             self.exec_block(s.body, env, mod, cls, fn)
+        elif isinstance(s, ast.For) and self.loop_contracts and self._loop_contract(s, fn) is not None:
+            # a loop under contract: the registered handler checks the invariant (entry, one arbitrary iteration of the real
+            # body, exit) instead of unrolling
+            self._loop_contract(s, fn)(self, s, env, mod, cls, fn)
         elif isinstance(s, ast.For):
             it = ev(s.iter)
             items = self.iterate(it)
@@ -1081,6 +1086,18 @@ class Interp:
             raise Unsupported(f"assignment target {type(tgt).__name__}")
 
     # ---------------------------------------------------------------- containers
+    loop_contracts: dict = {}
+
+    def _loop_contract(self, node, fn):
+        if fn is None or getattr(fn, "node", None) is None:
+            return None
+        loops = sorted((n for n in ast.walk(fn.node) if isinstance(n, (ast.For, ast.While))), key=lambda n: (n.lineno, n.col_offset))
+        try:
+            k = loops.index(node)
+        except ValueError:
+            return None
+        return self.loop_contracts.get((fn.qualname, k))
+
     def iterate(self, it):
         from . import models
 
